@@ -1,4 +1,139 @@
+(* Properties_C02c.v -- exported theorems of the third layer of C02: how ADF stores one node's data in data chunks and a
+   data-chunk table (model: AdfChunks.v, a transcription of the data side of ADF_interface.c / ADF_internals.c at /repo
+   5177c7b; proofs: AdfChunksProofs.v).  Only statements closed by [exact], each followed by Print Assumptions.
+
+   Vocabulary.
+   * A history is a list of (operation, allocator answers): PutDims / WriteAll / WriteBlock / WriteStrided / ReadAll /
+     ReadBlock / ReadStrided, with the addresses ADFI_file_malloc returned during the call.  [run Cur fa st0 hist] is the
+     store (node header + bytes on disk) after it.
+   * [good_hist Cur fa st0 hist] is the boolean monitor of the hypotheses, evaluated along the run (ocaml/eng_c02c.ml
+     evaluates the same monitors on every real trace):
+       alloc_ok   the allocator's answers are normalised pointers below 2^31 blocks, as many as the call needs, and the
+                  regions (of the sizes the call asks for) are disjoint from every live chunk, from the live table and from
+                  each other -- THE hypothesis on the allocator;
+       safe_step  set_dimensions: rank <= 12, extents >= 1, fewer than 2^36 elements (Z arithmetic = C arithmetic);
+                  writes: fewer than 65535 chunks (the header field has 4 hex digits); write_block: not a block of zero
+                  elements; (wall_safe / wblock_safe / zero_ok are identically true for [Cur]: they describe the three
+                  situations the code got wrong before b21b08d / 3f8f7e0 / 5177c7b);
+       buf_ok     the caller's buffer holds the bytes the call reads from it.
+   * [irun i0 (map fst hist)] is the SPECIFICATION: a plain array of optional bytes computed from the operations alone
+     ([istep]): a write overrides exactly the addressed bytes; set_dimensions with the same type and rank keeps the bytes below
+     the new size and forgets the rest, any other set_dimensions forgets everything; a strided write into a node that has
+     outgrown its storage first makes the new bytes zero.  [None] = never written since the data were last lost.
+   * [refines fa I s]: the store has a well-formed chunk list cs ([Inv]: number_of_data_chunks = |cs|; one chunk <-> the header
+     points at it, two or more <-> it points at a table that lists exactly cs; every chunk has both tags and its own end
+     pointer equal to the table's, 0 < size < 2^40, size a multiple of the element size; chunks and table pairwise
+     disjoint), type / dimensions / number of chunks / capacity are the specification's, and every byte the specification
+     defines is the byte the chunk list places at that logical offset.
+   * [iread I o = Some exp]: o is a read with a valid range of a node that was written after it last grew; [agrees exp l]:
+     the answer l has the specified length and equals exp wherever exp is defined. *)
 From Coq Require Import ZArith List.
-From CgnsV Require Import AdfChunks AdfChunksProofs.
-Theorem C02c_placeholder : True. Proof. exact placeholder. Qed.
-Print Assumptions C02c_placeholder.
+From CgnsV Require Import AdfCodec AdfChunks AdfChunksProofs.
+Import ListNotations.
+Local Open Scope Z_scope.
+
+(* READ AFTER WRITE, for EVERY history (any sizes, any sequence of growth and shrinking, full / block / strided writes, any
+   allocator satisfying alloc_ok): the store refines the plain array, and every full / block / strided read with a valid
+   range returns, for every byte written since the node last lost its data, the byte last written to it (frame included:
+   the specification changes exactly the addressed bytes), zero for the bytes a strided write initialised, and succeeds. *)
+Theorem C02_chunks_read_after_write : forall fa hist, fa_good fa -> good_hist Cur fa st0 hist = true ->
+  refines fa (irun i0 (map fst hist)) (run Cur fa st0 hist) /\
+  (forall o exp, iread (irun i0 (map fst hist)) o = Some exp ->
+     exists l, step Cur fa (run Cur fa st0 hist) o [] = (Ok (ABytes l), run Cur fa st0 hist) /\ agrees exp l = true).
+Proof. exact chunks_read_after_write. Qed.
+Print Assumptions C02_chunks_read_after_write.
+
+(* THE CHUNK-TABLE INVARIANT is preserved by every operation of every history; a write the specification accepts (valid
+   arguments) is accepted by the code, and afterwards the chunks have room for all the node's bytes. *)
+Theorem C02_chunks_invariant : forall fa hist, fa_good fa -> good_hist Cur fa st0 hist = true ->
+  (exists cs, Inv fa (s_h (run Cur fa st0 hist)) (s_d (run Cur fa st0 hist)) cs) /\
+  (forall o al, good_hist Cur fa st0 (hist ++ [(o, al)]) = true -> accepts (irun i0 (map fst hist)) o = true ->
+     fst (step Cur fa (run Cur fa st0 hist) o al) = Ok AUnit /\
+     exists cs, Inv fa (s_h (run Cur fa st0 (hist ++ [(o, al)]))) (s_d (run Cur fa st0 (hist ++ [(o, al)]))) cs /\
+                total_bytes (s_h (run Cur fa st0 (hist ++ [(o, al)]))) <= cap_of cs).
+Proof. exact chunks_invariant. Qed.
+Print Assumptions C02_chunks_invariant.
+
+(* THE PER-ELEMENT CHUNK LOOKUP of ADF_Write_Data / ADF_Read_Data (relative_offset, past_chunk_sizes, current_chunk_size):
+   from any state that designates a chunk of the table ([lk_ok]) and any byte offset not before that chunk and inside the
+   capacity, the loop ends on a chunk of the table, never runs past it (no INCOMPLETE_DATA), the offset lies inside that
+   chunk, and the address it computes is THE address of that logical byte ([phys] is a function: chunk and offset are
+   unique). *)
+Theorem C02_chunk_lookup_total : forall cs lk rel, sizes_pos cs -> lk_ok cs lk -> l_past lk <= rel < cap_of cs ->
+  exists lk', lookup (l_rest lk) (l_cur lk) (l_past lk) (l_size lk) rel = Ok lk' /\ lk_ok cs lk' /\
+    l_past lk' <= rel < l_past lk' + l_size lk' /\
+    phys cs rel = Some (cstart (l_cur lk') + HDR + (rel - l_past lk')).
+Proof. exact chunk_lookup_total. Qed.
+Print Assumptions C02_chunk_lookup_total.
+
+(* ... hence, after every good history, a strided read with a valid selection of a node written after it last grew
+   succeeds *)
+Theorem C02_chunks_strided_read_never_incomplete : forall fa hist sel, fa_good fa -> good_hist Cur fa st0 hist = true ->
+  i_ready (irun i0 (map fst hist)) = true ->
+  (exists ps, sel_positions (i_hdr (irun i0 (map fst hist))) sel = Ok ps) ->
+  exists l, step Cur fa (run Cur fa st0 hist) (ReadStrided sel) [] = (Ok (ABytes l), run Cur fa st0 hist).
+Proof. exact strided_read_never_incomplete. Qed.
+Print Assumptions C02_chunks_strided_read_never_incomplete.
+
+(* HISTORICAL WITNESSES (kernel-evaluated; each variant = Cur with ONE commit reverted; the same histories are
+   corpus/C02c/*.txt and run on the library first in every check). *)
+
+(* d6f9e64 (unsigned byte count in ADF_Write_Data): 1024 x I4 written, grown to 1536 and block-written across the chunk
+   boundary, shrunk to 9, strided write of element 9: refused before the commit (a chunk of about 2^64 bytes is
+   requested), accepted now and read back *)
+Theorem C02_chunks_shrink_old_refuted :
+  good_hist Cur fa_native st0 (wit_shrink ++ [(wit_shrink_op, [])]) = true /\
+  res_of Before_d6f9e64 wit_shrink wit_shrink_op [] = Err E_FWRITE /\
+  res_of Cur wit_shrink wit_shrink_op [] = Ok AUnit /\
+  res_of Cur (wit_shrink ++ [(wit_shrink_op, [])]) (ReadStrided [(9, 9, 1)]) [] = Ok (ABytes [Some 77; Some 0; Some 0; Some 0]).
+Proof. exact shrink_old_refuted. Qed.
+Print Assumptions C02_chunks_shrink_old_refuted.
+
+(* b21b08d (FOUND BY THIS LAYER): ADF_Write_All_Data moved the end tag of a chunk it filled only partly; after growing back
+   and rewriting every element with a strided write, read_all failed with ADF_DISK_TAG_ERROR *)
+Theorem C02_chunks_wall_old_refuted :
+  good_hist Cur fa_native st0 wit_wall = true /\
+  res_of Before_b21b08d wit_wall ReadAll [] = Err E_TAG /\
+  res_of Cur wit_wall ReadAll [] = Ok (ABytes (map Some (bseq 1200 4))).
+Proof. exact wall_old_refuted. Qed.
+Print Assumptions C02_chunks_wall_old_refuted.
+
+(* 3f8f7e0 (FOUND BY THIS LAYER): ADF_Write_Block_Data placed a block inside a newly appended chunk at the wrong offset: the
+   addressed elements 301..350 stayed unspecified and elements 201..250 received the data *)
+Theorem C02_chunks_wblock_old_refuted :
+  good_hist Cur fa_native st0 wit_wblk = true /\
+  res_of Before_3f8f7e0 wit_wblk (ReadBlock 301 350) [] = Ok (ABytes (repeat None 200)) /\
+  res_of Before_3f8f7e0 wit_wblk (ReadBlock 201 250) [] = Ok (ABytes (map Some (bseq 200 5))) /\
+  res_of Cur wit_wblk (ReadBlock 301 350) [] = Ok (ABytes (map Some (bseq 200 5))).
+Proof. exact wblock_old_refuted. Qed.
+Print Assumptions C02_chunks_wblock_old_refuted.
+
+(* 5177c7b (FOUND BY THIS LAYER): the zero fill of a new chunk of more than 4096 bytes read 4097 bytes from the 4096-byte
+   block of zeros when the data area starts on a block boundary (OOBR = what ASan reports) and did not zero the chunk; now
+   the whole chunk is zero *)
+Theorem C02_chunks_zero_fill_old_refuted :
+  good_hist Cur fa_native st0 [(PutDims C1 [5000], []); (wit_zero_op, [(1, 4080)])] = true /\
+  res_of Before_5177c7b [(PutDims C1 [5000], [])] wit_zero_op [(1, 4080)] = OOBR 9 /\
+  res_of Cur [(PutDims C1 [5000], [])] wit_zero_op [(1, 4080)] = Ok AUnit /\
+  res_of Cur [(PutDims C1 [5000], []); (wit_zero_op, [(1, 4080)])] (ReadStrided [(4990, 4999, 1)]) [] = Ok (ABytes (repeat (Some 0) 10)) /\
+  res_of Before_5177c7b [(PutDims C1 [5000], []); (wit_zero_op, [(1, 0)])] (ReadStrided [(4990, 4999, 1)]) [] = Ok (ABytes (repeat None 10)).
+Proof. exact zero_old_refuted. Qed.
+Print Assumptions C02_chunks_zero_fill_old_refuted.
+
+(* 5c54229 (FOUND BY THIS LAYER): ADF_Read_Block_Data zeroed total_bytes - bytes_read bytes of the caller's block_bytes
+   buffer on its INCOMPLETE_DATA path (OOBW = heap overflow); now it reports INCOMPLETE_DATA cleanly.  (The path is taken
+   only by a node re-dimensioned beyond its capacity and not yet rewritten: outside [iread].) *)
+Theorem C02_chunks_rblock_old_refuted :
+  good_hist Cur fa_native st0 wit_rblk = true /\
+  res_of Before_5c54229 wit_rblk (ReadBlock 11 11) [] = OOBW 7 /\
+  res_of Cur wit_rblk (ReadBlock 11 11) [] = Err E_INCOMPLETE.
+Proof. exact rblock_old_refuted. Qed.
+Print Assumptions C02_chunks_rblock_old_refuted.
+
+(* non-vacuity: the attributes of the files this library writes satisfy fa_good; a history that reaches three chunks,
+   shrinks below the first one and grows again satisfies good_hist, and its final state is one [iread] speaks about *)
+Example C02c_fa_native_good : fa_good fa_native.
+Proof. exact fa_native_good. Qed.
+Example C02c_hypotheses_satisfiable :
+  good_hist Cur fa_native st0 ex_hist = true /\ i_ready (irun i0 (map fst ex_hist)) = true /\ i_n (irun i0 (map fst ex_hist)) = 3.
+Proof. exact ex_hist_good. Qed.
